@@ -654,3 +654,175 @@ Proof.
 Qed.
 
 End Step.
+
+Lemma refine_all : forall f, Ce f /\ Ca f /\ Cs f.
+Proof.
+  induction f as [|f (IHe & IHa & IHs)].
+  - repeat split; intros e x _ _ sts; reflexivity.
+  - split; [apply rstep_e; assumption|]. split; [apply rstep_a; assumption|].
+    intros e s Hw He. apply (rstep_s f IHe IHa IHs e s Hw He).
+Qed.
+
+(* ---------------------------------------------------------------------------------------------- *)
+(* the top level *)
+
+Lemma top_stmt fuel s : wf_top s = true ->
+  forall sts, stmt_r fx fuel s (with_env sts []) =
+              match stmt_s fuel [] s sts with
+              | Ok ((o, _), s') => Ok (o, with_env s' [])
+              | Err x => Err x | Panic x => Panic x | OutOfFuel => OutOfFuel
+              end
+              /\ (forall o e' s', stmt_s fuel [] s sts = Ok ((o, e'), s') -> e' = []).
+Proof.
+  intros Hw sts. destruct fuel as [|f]; [split; [reflexivity|discriminate]|].
+  destruct (refine_all f) as (IHe & IHa & IHs).
+  destruct s; try discriminate Hw; cbn [stmt_r stmt_s].
+  - split; [reflexivity|]. intros o e' s' H. inversion H. reflexivity.
+  - split; [reflexivity|]. intros o e' s' H. inversion H. reflexivity.
+  - (* PBlobDef *)
+    split.
+    + rewrite !bind_eq. unfold lift at 1. unfold lookup_in at 1. unfold lift at 1.
+      destruct (lookup (with_env sts []) (i_name name) sp) as [v| | |]; try reflexivity.
+      rewrite !bind_eq. unfold fields_m, fields_in, lift.
+      destruct (rbind (fields_r (with_env sts []) fields) _) as [fs| | |]; reflexivity.
+    + intros o e' s' H. peel H. inversion H. reflexivity.
+  - (* PEnumDef *)
+    split.
+    + rewrite !bind_eq. unfold lift at 1. unfold lookup_in at 1. unfold lift at 1.
+      destruct (lookup (with_env sts []) (i_name name) sp) as [v| | |]; try reflexivity.
+      rewrite !bind_eq. unfold fields_m, fields_in, lift.
+      destruct (rbind (fields_r (with_env sts []) variants) _) as [fs| | |]; reflexivity.
+    + intros o e' s' H. peel H. inversion H. reflexivity.
+  - (* PDefinition: a global *)
+    cbn [wf_top wf_s] in Hw. split.
+    + rewrite bind_eq. unfold get_stack at 1. cbv beta iota. cbn [st_stack with_env env_flat concat].
+      rewrite !bind_eq. unfold push_var. rewrite !bind_eq. unfold new_var, new_var_g. cbv beta zeta iota.
+      rewrite !bind_eq. cbn [i_name i_span].
+      set (st1 := mkSt (st_ns sts) (st_stack sts)
+                       (mkVar (st_next sts) (stack_begin_name (i_name i)) (i_span i) false kind :: st_vars sts)
+                       (N.succ (st_next sts)) (st_n2f sts)).
+      change (mkSt (st_ns (with_env sts [])) (st_stack (with_env sts []))
+                   (mkVar (st_next (with_env sts [])) (stack_begin_name (i_name i)) (i_span i) false kind
+                    :: st_vars (with_env sts []))
+                   (N.succ (st_next (with_env sts []))) (st_n2f (with_env sts [])))
+        with (with_env st1 []).
+      rewrite push_name_scope. cbv beta iota. unfold ret at 1. cbv beta iota. cbn [st_next with_env].
+      fold (with_env st1 [[(stack_begin_name (i_name i), st_next sts)]]).
+      rewrite !bind_eq.
+      assert (Hne : env_flat [[(stack_begin_name (i_name i), st_next sts)]] <> []) by discriminate.
+      pose proof (IHe _ value Hw Hne st1) as Hx. cbv beta in Hx.
+      change (expr_r fx f value (with_env st1 [[(stack_begin_name (i_name i), st_next sts)]]))
+        with (expr_r fx f value (with_env st1 [[(stack_begin_name (i_name i), st_next sts)]])) in Hx.
+      rewrite Hx. clear Hx.
+      destruct (expr_s f [[(stack_begin_name (i_name i), st_next sts)]] value st1) as [[y s1]| | |];
+        cbn [on_env]; try reflexivity.
+      rewrite !bind_eq. unfold set_stack at 1. cbv beta iota. cbn [st_ns st_vars st_next st_n2f with_env].
+      fold (with_env s1 []). rewrite !bind_eq. unfold lift at 1. unfold lookup_in at 1. unfold lift at 1.
+      destruct (lookup (with_env s1 []) (i_name i) sp) as [v| | |]; try reflexivity.
+      unfold ret at 1. cbv beta iota. rewrite !bind_eq. unfold lift at 1. unfold ty_in, lift.
+      destruct (ty_r (with_env s1 []) t) as [t'| | |]; reflexivity.
+    + intros o e' s' H. peel H. inversion H. reflexivity.
+  - (* PExternalDefinition *)
+    split.
+    + rewrite !bind_eq. unfold lift at 1. unfold lookup_in at 1. unfold lift at 1.
+      destruct (lookup (with_env sts []) (i_name i) sp) as [v| | |]; try reflexivity.
+      rewrite !bind_eq. unfold lift at 1. unfold ty_in, lift.
+      destruct (ty_r (with_env sts []) t) as [t'| | |]; reflexivity.
+    + intros o e' s' H. peel H. inversion H. reflexivity.
+  - split; [reflexivity|]. intros o e' s' H. inversion H. reflexivity.
+Qed.
+
+Lemma top_block fuel ss : all_with wf_top ss = true ->
+  forall sts, block_with (stmt_r fx fuel) ss (with_env sts []) = on_env [] (seq_with (stmt_s fuel) [] ss sts).
+Proof.
+  induction ss as [|s ss IH]; intros Hw sts; [reflexivity|].
+  cbn in Hw. apply andb_true_iff in Hw as [Hs Hss].
+  cbn [block_with seq_with]. rewrite !bind_eq. destruct (top_stmt fuel s Hs sts) as [E Henv]. rewrite E.
+  destruct (stmt_s fuel [] s sts) as [[[o e1] s1]| | |] eqn:Es; try reflexivity.
+  rewrite (Henv _ _ _ eq_refl). cbn [fst snd]. rewrite !bind_eq. rewrite (IH Hss s1).
+  destruct (seq_with (stmt_s fuel) [] ss s1) as [[l s2]| | |]; reflexivity.
+Qed.
+
+(* the namespace passes never touch the scope stack *)
+Definition keeps_stack {A} (m : M A) : Prop := forall st a st', m st = Ok (a, st') -> st_stack st' = st_stack st.
+
+Lemma keeps_bind {A B} (m : M A) (k : A -> M B) :
+  keeps_stack m -> (forall a, keeps_stack (k a)) -> keeps_stack (bind m k).
+Proof.
+  intros Hm Hk st b st' H. apply bind_ok in H as (a & s1 & E1 & E2).
+  rewrite (Hk a _ _ _ E2). eapply Hm; eauto.
+Qed.
+
+Lemma keeps_ret {A} (a : A) : keeps_stack (ret a).
+Proof. intros st b st' H. inversion H. reflexivity. Qed.
+
+Lemma keeps_fail {A} k sp : keeps_stack (@fail A k sp).
+Proof. intros st b st' H. discriminate. Qed.
+
+Lemma keeps_for_each {X} (g : X -> M unit) l : (forall x, keeps_stack (g x)) -> keeps_stack (for_each g l).
+Proof.
+  intros Hg. induction l as [|x l IH]; cbn [for_each]; [apply keeps_ret|].
+  apply keeps_bind; [apply Hg|]. intros _. exact IH.
+Qed.
+
+Lemma keeps_import_name f nm v k sp : keeps_stack (import_name f nm v k sp).
+Proof.
+  intros st u st' H. unfold import_name in H. destruct (fol_get (st_ns st) f); [|discriminate].
+  destruct (ns_get n nm) as [old|].
+  - destruct (name_eqb old v); [|discriminate]. inversion H. reflexivity.
+  - unfold set_namespace in H. inversion H. reflexivity.
+Qed.
+
+Lemma keeps_add_definitions ss : forall t, keeps_stack (add_definitions ss t).
+Proof.
+  induction ss as [|s ss IH]; intros t; cbn [add_definitions]; [apply keeps_ret|].
+  destruct (defined_ident s) as [[i k]|]; [|apply IH].
+  apply keeps_bind; [intros st a st' H; inversion H; reflexivity|]. intros v.
+  destruct (ns_get t (i_name i)); [apply keeps_fail|apply IH].
+Qed.
+
+Lemma keeps_from_imports f file sp imps : keeps_stack (from_imports f file sp imps).
+Proof.
+  induction imps as [|[nm al] rest IH]; cbn [from_imports]; [apply keeps_ret|].
+  apply keeps_bind; [intros st a st' H; inversion H; reflexivity|]. intros from_ns.
+  destruct from_ns as [from_ns|]; [|apply keeps_fail].
+  destruct (ns_get from_ns (i_name nm)); [|apply keeps_fail].
+  apply keeps_bind; [apply keeps_import_name|]. intros _. exact IH.
+Qed.
+
+Lemma keeps_rgv f ss : keeps_stack (resolve_global_variables f ss).
+Proof.
+  induction ss as [|s ss IH]; cbn [resolve_global_variables]; [apply keeps_ret|].
+  apply keeps_bind; [|intros _; exact IH].
+  destruct s; try apply keeps_ret.
+  - apply keeps_bind; [intros st a st' H; inversion H; reflexivity|]. intros target.
+    destruct target; [apply keeps_import_name|apply keeps_fail].
+  - apply keeps_from_imports.
+Qed.
+
+Lemma with_env_nil st : st_stack st = [] -> st = with_env st [].
+Proof. destruct st; cbn; intros ->; reflexivity. Qed.
+
+(* resolve_refines, for the resolver with all four flags on *)
+Theorem resolve_refines ast : wf_ast ast = true -> resolve fx ast = resolve_spec ast.
+Proof.
+  intros Hw. unfold resolve, resolve_spec, resolve_fuel, resolve_spec_fuel, resolve_m, resolve_spec_m.
+  rewrite !bind_eq.
+  destruct (for_each insert_namespace_and_add_definitions ast (init_state ast)) as [[[] s1]| | |] eqn:E1; try reflexivity.
+  rewrite !bind_eq.
+  destruct (for_each (fun m => resolve_global_variables (m_file m) (m_stmts m)) ast s1) as [[[] s2]| | |] eqn:E2;
+    try reflexivity.
+  assert (Hst : st_stack s2 = []).
+  { rewrite (keeps_for_each _ ast (fun m => keeps_rgv (m_file m) (m_stmts m)) _ _ _ E2).
+    rewrite (keeps_for_each _ ast (fun m => keeps_bind _ _ (keeps_add_definitions (m_stmts m) [])
+                                              (fun t st a st' H => ltac:(inversion H; reflexivity))) _ _ _ E1).
+    reflexivity. }
+  assert (Hws : all_with wf_top (flat_map m_stmts ast) = true).
+  { clear - Hw. induction ast as [|m ast IH]; [reflexivity|]. cbn in Hw. apply andb_true_iff in Hw as [Hm Ha].
+    cbn [flat_map]. specialize (IH Ha). clear Ha. induction (m_stmts m) as [|s l IHl]; [exact IH|].
+    cbn in Hm. apply andb_true_iff in Hm as [Hs Hl]. cbn. rewrite Hs. cbn. apply IHl. exact Hl. }
+  rewrite !bind_eq. rewrite (with_env_nil s2 Hst) at 1. rewrite (top_block _ _ Hws s2).
+  destruct (seq_with (stmt_s (fuel_of ast)) [] (flat_map m_stmts ast) s2) as [[out s3]| | |]; cbn [on_env]; try reflexivity.
+  rewrite !bind_eq. unfold lift. rewrite lookup_global_env.
+  destruct (lookup_global s3 0 "start") as [[nm|]| | |]; reflexivity.
+Qed.
